@@ -26,6 +26,7 @@ struct GenParams {
     bool big = false;              // occasionally larger variables (cross 4 KiB swap threshold)
     bool no_type_conv = false;     // memory type == native type
     bool forced_np = false; int np = 0;
+    bool invalid_args = false;     // per-rank invalid arguments in collective data calls (C08)
     bool badids = false;           // calls on ids that are not open (C17)
     bool close_pending = false;    // close with pending nonblocking requests (C17)
     bool iget_overlap_strict = false;   // check the overlapped share of overlapping iget requests on 10% of seeds (C02 known finding)
